@@ -265,6 +265,20 @@ func (c *Ctx) BitStorageFixSibling() []core.Ob {
 			return "P"
 		case *ssa.BinOp:
 			return "(" + render(x.X, bits, d+1) + x.Op.String() + render(x.Y, bits, d+1) + ")"
+		case *ssa.Call:
+			// a straight-line helper of the package that only computes (valueMask(bits)): its result
+			// expression, with the bits argument followed into it
+			if g := x.Call.StaticCallee(); g != nil && inPkgs(g, "level") && len(g.Blocks) == 1 {
+				if ret, ok := g.Blocks[0].Instrs[len(g.Blocks[0].Instrs)-1].(*ssa.Return); ok && len(ret.Results) == 1 {
+					var gb ssa.Value
+					for i, a := range x.Call.Args {
+						if (a == bits || stripConv(a) == bits) && i < len(g.Params) {
+							gb = g.Params[i]
+						}
+					}
+					return render(ret.Results[0], gb, d+1)
+				}
+			}
 		}
 		return "?"
 	}
